@@ -90,7 +90,12 @@ def _issubclass(
 
 
 def coerce_single_value(setting: spec.Setting, value: Any) -> Any:
-    if isinstance(setting.type, type) and isinstance(value, setting.type):
+    if (
+        isinstance(setting.type, type)
+        and isinstance(value, setting.type)
+        # bool is a subclass of int, but std::bool is not an std::int64
+        and not (isinstance(value, bool) and setting.type is not bool)
+    ):
         return value
     elif (isinstance(value, str) and
           _issubclass(setting.type, statypes.Duration)):
